@@ -128,6 +128,44 @@ def configs_for(tier):
     return out
 
 
+def checker_validation(prop):
+    """thorough tier: test the checker both ways on the committed corpora - every seeded /
+    surveyed change that breaks this property must be reported, every behaviour-preserving
+    refactoring must stay silent.  Analysis only (no mutant is executed); never influences the
+    verdict of the property on /repo."""
+    import glob
+    import subprocess
+    import tempfile
+
+    out = {}
+    mt = os.path.join(VERIF, "tools", "mutest.py")
+    env = dict(os.environ, WOWSRP_NO_VALIDATION="1", VERIF_TIER="quick")
+    with tempfile.TemporaryDirectory() as td:
+        breaking = sorted(glob.glob(os.path.join(VERIF, "seeded", prop + "-*", "patch.diff")))
+        js = os.path.join(td, "b.json")
+        files = breaking + sorted(glob.glob(os.path.join(VERIF, "mutants", "*", "*.json")))
+        subprocess.run([sys.executable, mt, "--props", prop, "--filter", prop, "--jobs", "12", "--json", js] + files, env=env, capture_output=True, text=True)
+        try:
+            r = json.load(open(js))
+        except Exception:
+            r = []
+        out["breaking_changes"] = len([x for x in r if x["status"] != "skipped"])
+        out["breaking_reported"] = len([x for x in r if x["status"] == "caught"])
+        out["breaking_missed"] = [x["name"] for x in r if x["status"] == "MISSED"]
+        js2 = os.path.join(td, "r.json")
+        refs = sorted(glob.glob(os.path.join(VERIF, "refactors", "*", "patch.diff")))
+        if refs:
+            subprocess.run([sys.executable, mt, "--props", prop, "--jobs", "12", "--json", js2] + refs, env=env, capture_output=True, text=True)
+            try:
+                r2 = json.load(open(js2))
+            except Exception:
+                r2 = []
+            out["refactorings"] = len([x for x in r2 if x["status"] != "skipped"])
+            out["refactorings_silent"] = len([x for x in r2 if x["status"] == "MISSED"])
+            out["refactorings_alarmed"] = [x["name"] for x in r2 if x["status"] == "caught"]
+    return out
+
+
 def run_property(prop, tier="quick", replay=None, extra_checks=None):
     t0 = time.time()
     mod = importlib.import_module("rules." + prop.lower())
@@ -185,6 +223,9 @@ def run_property(prop, tier="quick", replay=None, extra_checks=None):
             all_obs.extend(witness.obligations(prop))
         except Exception:
             errors.append("witness harness failed: %s" % traceback.format_exc()[-1500:])
+    validation = None
+    if tier == "thorough" and not os.environ.get("WOWSRP_NO_VALIDATION") and extract.REPO == "/repo":
+        validation = checker_validation(prop)
     if hasattr(mod, "thorough_extra") and tier == "thorough":
         try:
             all_obs.extend(mod.thorough_extra(prop))
@@ -275,6 +316,8 @@ def run_property(prop, tier="quick", replay=None, extra_checks=None):
         "exhaustive": False,
         "tree_hash": extract.tree_hash(),
     }
+    if validation is not None:
+        cov["checker_validation"] = validation
     ev = {
         "property_id": prop,
         "tier": tier,
